@@ -303,6 +303,7 @@ struct Rw<'a> {
     file: String,
     const_values: &'a BTreeMap<String, u64>, // extract.json "const_values": integer constants of dependencies (N15)
     n16: usize,
+    err_ctx: usize,
     local_str_newtypes: BTreeSet<String>,
 }
 
@@ -340,6 +341,290 @@ fn lit_const_name(bytes: &[u8]) -> String {
 }
 
 impl<'a> Rw<'a> {
+    fn visit_expr_inner(&mut self, e: &mut Expr) {
+        // N15: a dependency constant named through its crate path (`alloy_rlp::EMPTY_STRING_CODE`) becomes its value
+        if let Expr::Path(p) = &*e {
+            if p.path.segments.len() >= 2 {
+                let first = p.path.segments.first().unwrap().ident.to_string();
+                let last = p.path.segments.last().unwrap().ident.to_string();
+                if (first == "alloy_rlp" || self.standin_crates.contains(&first)) && last.chars().all(|c| c.is_ascii_uppercase() || c.is_ascii_digit() || c == '_') {
+                    if let Some(v) = self.const_values.get(&last) {
+                        self.log.push(format!("N15 dependency constant `{}` -> {}", p.to_token_stream(), v));
+                        let lit = proc_macro2::Literal::u64_unsuffixed(*v);
+                        *e = parse_quote!(#lit);
+                        return;
+                    }
+                }
+            }
+        }
+        // N4 (string literal at key position) must look at the un-rewritten call first
+        if let Expr::MethodCall(mc) = e {
+            let mname = mc.method.to_string();
+            if self.asref_key_methods.contains(&mname) {
+                if let Some(Expr::Lit(ExprLit { lit: Lit::Str(s), .. })) = mc.args.first() {
+                    let bytes = s.value().into_bytes();
+                    let np = self.lit_path(bytes, &format!("str key argument of .{}()", mname));
+                    *mc.args.first_mut().unwrap() = np;
+                }
+            }
+        }
+        visit_mut::visit_expr_mut(self, e);
+        // N4 (continued): a byte-string literal is an array in the source and a `&'static [u8]` constant here; `.as_slice()` on
+        // it is the identity (and `<[u8]>::as_slice` is unstable)
+        if let Expr::MethodCall(mc) = e {
+            if mc.method == "as_slice" && mc.args.is_empty() {
+                if let Expr::Path(rp) = &*mc.receiver {
+                    if rp.path.segments.last().map(|sg| sg.ident.to_string().starts_with("VP_B")).unwrap_or(false) {
+                        self.log.push("N4 <byte-string constant>.as_slice() -> the constant".to_string());
+                        let r = (*mc.receiver).clone();
+                        *e = r;
+                        return;
+                    }
+                }
+            }
+        }
+        match e {
+            Expr::Match(m) => {
+                if let Some(n) = self.try_match_to_if(m) {
+                    *e = n;
+                }
+            }
+            Expr::Lit(ExprLit { lit: Lit::ByteStr(b), .. }) => {
+                let v = b.value();
+                *e = self.lit_path(v, "expression");
+            }
+            Expr::Macro(em) => {
+                let name = em.mac.path.segments.last().map(|s| s.ident.to_string()).unwrap_or_default();
+                if name == "matches" {
+                    // matches!(scrutinee, A | B | C)
+                    struct MArgs {
+                        e: Expr,
+                        p: Pat,
+                    }
+                    impl parse::Parse for MArgs {
+                        fn parse(input: parse::ParseStream) -> Result<Self> {
+                            let e: Expr = input.parse()?;
+                            input.parse::<Token![,]>()?;
+                            let p = Pat::parse_multi_with_leading_vert(input)?;
+                            Ok(MArgs { e, p })
+                        }
+                    }
+                    if let Ok(a) = em.mac.parse_body::<MArgs>() {
+                        if let Expr::Path(ep) = &a.e {
+                            if let Some(id) = ep.path.get_ident() {
+                                if let Some(c) = self.pat_to_cond(id, &a.p) {
+                                    self.log.push(format!("N1 matches!({}, ..) -> disjunction of equalities", id));
+                                    *e = parse_quote!((#c));
+                                }
+                            }
+                        }
+                    }
+                } else if name == "write" {
+                    // N6: write!(f, "{}", x) -> crate::sp::vp_write_display(f, &x)
+                    let parsed: Result<Punctuated<Expr, Token![,]>> = em.mac.parse_body_with(Punctuated::parse_terminated);
+                    if let Ok(mut args) = parsed {
+                        // macro arguments are opaque tokens for the visitor: normalise them explicitly
+                        for a in args.iter_mut() {
+                            self.visit_expr_mut(a);
+                        }
+                        // holes with a name and/or a lower-hex spec: write!(f, "0x{a:02x}{:x}", b) -- `{}` / `{name}` take a string-like
+                        // argument, `{:x}` / `{:02x}` / `{name:x}` / `{name:02x}` a `u8`; anything else is left alone (Verus rejects it)
+                        if args.len() >= 2 {
+                            if let Expr::Lit(ExprLit { lit: Lit::Str(fs), .. }) = &args[1] {
+                                let fmt = fs.value();
+                                if let Some(pieces) = parse_fmt_pieces(&fmt) {
+                                    let special = pieces.iter().any(|p| matches!(p, FmtPiece::Hole { name, spec } if name.is_some() || !spec.is_empty()));
+                                    let n_pos = pieces.iter().filter(|p| matches!(p, FmtPiece::Hole { name: None, .. })).count();
+                                    if special && n_pos == args.len() - 2 {
+                                        let f = &args[0];
+                                        let mut parts: Vec<Expr> = vec![];
+                                        let mut next = 2;
+                                        for pc in &pieces {
+                                            match pc {
+                                                FmtPiece::Lit(l) => {
+                                                    let l = LitStr::new(l, Span::call_site());
+                                                    parts.push(parse_quote!(#l));
+                                                }
+                                                FmtPiece::Hole { name, spec } => {
+                                                    let a: Expr = match name {
+                                                        Some(n) => {
+                                                            let id = format_ident!("{}", n);
+                                                            parse_quote!(#id)
+                                                        }
+                                                        None => {
+                                                            let a = args[next].clone();
+                                                            next += 1;
+                                                            a
+                                                        }
+                                                    };
+                                                    if spec.is_empty() {
+                                                        parts.push(parse_quote!(crate::sp::VpAsStr::vp_as_str(&#a)));
+                                                    } else {
+                                                        let w: usize = if spec == "02x" { 2 } else { 0 };
+                                                        parts.push(parse_quote!(crate::sp::VpAsStr::vp_as_str(&crate::sp::vp_hex_u8(#a, #w))));
+                                                    }
+                                                }
+                                            }
+                                        }
+                                        self.log.push(format!("N6 write!({}, {:?}, ..) -> vp_write_parts (named / lower-hex holes)", f.to_token_stream(), fmt));
+                                        *e = parse_quote!(crate::sp::vp_write_parts(#f, &[#(#parts),*]));
+                                        return;
+                                    }
+                                }
+                            }
+                        }
+                        // general form: write!(f, "lit{}lit{}..", a, b, ..) with only `{}` holes and string-like arguments
+                        // -> vp_write_parts(f, &[ "lit", a, "lit", b, .. ])
+                        if args.len() >= 3 {
+                            if let Expr::Lit(ExprLit { lit: Lit::Str(fs), .. }) = &args[1] {
+                                let fmt = fs.value();
+                                let pieces: Vec<&str> = fmt.split("{}").collect();
+                                if fmt != "{}" && pieces.len() == args.len() - 1 && !fmt.replace("{}", "").contains('{') {
+                                    let f = &args[0];
+                                    let mut parts: Vec<Expr> = vec![];
+                                    for (i, lit) in pieces.iter().enumerate() {
+                                        if !lit.is_empty() {
+                                            let l = LitStr::new(lit, Span::call_site());
+                                            parts.push(parse_quote!(#l));
+                                        }
+                                        if i + 2 < args.len() {
+                                            let a = &args[i + 2];
+                                            parts.push(parse_quote!(crate::sp::VpAsStr::vp_as_str(&#a)));
+                                        }
+                                    }
+                                    self.log.push(format!("N6 write!({}, {:?}, ..) -> vp_write_parts", f.to_token_stream(), fmt));
+                                    *e = parse_quote!(crate::sp::vp_write_parts(#f, &[#(#parts),*]));
+                                    return;
+                                }
+                            }
+                        }
+                        if args.len() == 3 {
+                            if let Expr::Lit(ExprLit { lit: Lit::Str(fs), .. }) = &args[1] {
+                                if fs.value() == "{}" {
+                                    let f = &args[0];
+                                    let x = &args[2];
+                                    self.log.push(format!("N6 write!({}, \"{{}}\", ..) -> vp_write_display", f.to_token_stream()));
+                                    *e = parse_quote!(crate::sp::vp_write_display(#f, &#x));
+                                }
+                            }
+                        }
+                    }
+                } else if name == "format" {
+                    *e = self.rewrite_format(&em.mac);
+                } else if name == "unreachable" {
+                    // keep: Verus understands unreachable!() as assert(false)
+                }
+            }
+            Expr::MethodCall(mc) => {
+                let mname = mc.method.to_string();
+                // N2 unsizing to &mut dyn BufMut
+                if mname == "encode" && mc.args.len() == 1 {
+                    let arg = mc.args.first().unwrap().clone();
+                    let dynp = self.dyn_params.last().cloned().unwrap_or_default();
+                    let bmp = self.bufmut_params.last().cloned().unwrap_or_default();
+                    match &arg {
+                        Expr::Reference(r) if r.mutability.is_some() => {
+                            let inner = &r.expr;
+                            *mc.args.first_mut().unwrap() = parse_quote!(crate::sp::VpDyn::vp_dyn(&mut #inner));
+                            self.log.push(format!("N2 .encode(&mut {}) -> vp_dyn", inner.to_token_stream()));
+                        }
+                        Expr::Path(p) => {
+                            if let Some(id) = p.path.get_ident() {
+                                let n = id.to_string();
+                                if bmp.contains(&n) && !dynp.contains(&n) {
+                                    *mc.args.first_mut().unwrap() = parse_quote!(crate::sp::VpDyn::vp_dyn(#id));
+                                    self.log.push(format!("N2 .encode({}) -> vp_dyn", n));
+                                }
+                            }
+                        }
+                        _ => {}
+                    }
+                }
+                // N13: <&str parameter>.len() -> shim with a byte-length contract (vstd's own `str::len` entry carries no
+                // usable postcondition in this version)
+                if mname == "len" && mc.args.is_empty() {
+                    if let Expr::Path(p) = &*mc.receiver {
+                        if let Some(id) = p.path.get_ident() {
+                            if self.str_params.last().map(|s| s.contains(&id.to_string())).unwrap_or(false) {
+                                self.log.push(format!("N13 {}.len() (a &str parameter) -> crate::sp::vp_str_len({})", id, id));
+                                *e = parse_quote!(crate::sp::vp_str_len(#id));
+                                return;
+                            }
+                        }
+                    }
+                }
+                // N13: x.hash(state) -> shim (the Hasher trait cannot carry a ghost trace in this Verus)
+                if mname == "hash" && mc.args.len() == 1 {
+                    let recv = (*mc.receiver).clone();
+                    let st = mc.args.first().unwrap().clone();
+                    self.log.push(format!("N13 {}.hash({}) -> crate::sp::vp_hash(&.., ..)", recv.to_token_stream(), st.to_token_stream()));
+                    *e = parse_quote!(crate::sp::vp_hash(&#recv, #st));
+                    return;
+                }
+                // N13: <&mut [u8] parameter>.as_ref() -> shim
+                if mname == "as_ref" && mc.args.is_empty() {
+                    if let Expr::Path(p) = &*mc.receiver {
+                        if let Some(id) = p.path.get_ident() {
+                            if self.mutslice_params.last().map(|s| s.contains(&id.to_string())).unwrap_or(false) {
+                                self.log.push(format!("N13 {}.as_ref() (a &mut [u8] parameter) -> crate::sp::vp_mut_slice_as_ref({})", id, id));
+                                *e = parse_quote!(crate::sp::vp_mut_slice_as_ref(#id));
+                                return;
+                            }
+                        }
+                    }
+                }
+                // N13: String::from_utf8_lossy(x).to_string() -> shim (Cow<str> cannot be specified)
+                if mname == "to_string" && mc.args.is_empty() {
+                    if let Expr::Call(c) = &*mc.receiver {
+                        if let Expr::Path(p) = &*c.func {
+                            if p.path.segments.last().map(|s| s.ident == "from_utf8_lossy").unwrap_or(false) && c.args.len() == 1 {
+                                let a = c.args.first().unwrap().clone();
+                                self.log.push("N13 String::from_utf8_lossy(..).to_string() -> crate::sp::vp_lossy_string(..)".to_string());
+                                *e = parse_quote!(crate::sp::vp_lossy_string(#a));
+                                return;
+                            }
+                        }
+                    }
+                }
+                // N10 constructor as function value
+                if (mname == "map" || mname == "map_err" || mname == "and_then") && mc.args.len() == 1 {
+                    if let Expr::Path(p) = mc.args.first().unwrap() {
+                        if p.path.segments.len() >= 2 {
+                            let last = p.path.segments.last().unwrap().ident.to_string();
+                            if last.chars().next().map(|c| c.is_ascii_uppercase()).unwrap_or(false) {
+                                let path = p.path.clone();
+                                self.log.push(format!("N10 constructor as fn value {} -> closure", path.to_token_stream()));
+                                *mc.args.first_mut().unwrap() = parse_quote!(|vp_x| #path(vp_x));
+                            }
+                        }
+                    }
+                }
+            }
+            Expr::Closure(c) => {
+                for inp in c.inputs.iter_mut() {
+                    if let Pat::Wild(_) = inp {
+                        self.closure_ctr += 1;
+                        let id = format_ident!("_vp_u{}", self.closure_ctr);
+                        *inp = parse_quote!(#id);
+                        self.log.push("N11 closure parameter `_` renamed".to_string());
+                    }
+                }
+            }
+            Expr::ForLoop(fl) => {
+                // N5
+                if let Expr::Reference(r) = &*fl.expr {
+                    if r.mutability.is_none() {
+                        let inner = &r.expr;
+                        self.log.push(format!("N5 for .. in &{} -> .iter()", inner.to_token_stream()));
+                        let ne: Expr = parse_quote!(#inner.iter());
+                        *fl.expr = ne;
+                    }
+                }
+            }
+            _ => {}
+        }
+    }
+
     /// N16: slice patterns are not supported by Verus.  For a `let` over an array / slice of `Copy` elements the pattern
     /// `[a, _, .., z]` is the same as indexing from the front and from the back (a non-`Copy` element type then fails to
     /// compile: tool error, UNDECIDED).  Only patterns with `..` are rewritten (an irrefutable `let` with `..` exists for
@@ -653,286 +938,19 @@ impl<'a> VisitMut for Rw<'a> {
     }
 
     fn visit_expr_mut(&mut self, e: &mut Expr) {
-        // N15: a dependency constant named through its crate path (`alloy_rlp::EMPTY_STRING_CODE`) becomes its value
-        if let Expr::Path(p) = &*e {
-            if p.path.segments.len() >= 2 {
-                let first = p.path.segments.first().unwrap().ident.to_string();
-                let last = p.path.segments.last().unwrap().ident.to_string();
-                if (first == "alloy_rlp" || self.standin_crates.contains(&first)) && last.chars().all(|c| c.is_ascii_uppercase() || c.is_ascii_digit() || c == '_') {
-                    if let Some(v) = self.const_values.get(&last) {
-                        self.log.push(format!("N15 dependency constant `{}` -> {}", p.to_token_stream(), v));
-                        let lit = proc_macro2::Literal::u64_unsuffixed(*v);
-                        *e = parse_quote!(#lit);
-                        return;
-                    }
-                }
-            }
+        // error position: the argument of `Err(..)`, or of `map_err` / `ok_or` / `ok_or_else` / `expect` (N6 may replace a
+        // `format!` there by an arbitrary string: error texts are not part of any property)
+        let errpos = match &*e {
+            Expr::Call(c) => matches!(&*c.func, Expr::Path(p) if p.path.segments.last().map(|sg| sg.ident == "Err").unwrap_or(false)),
+            Expr::MethodCall(mc) => ["map_err", "ok_or", "ok_or_else", "expect"].contains(&mc.method.to_string().as_str()),
+            _ => false,
+        };
+        if errpos {
+            self.err_ctx += 1;
         }
-        // N4 (string literal at key position) must look at the un-rewritten call first
-        if let Expr::MethodCall(mc) = e {
-            let mname = mc.method.to_string();
-            if self.asref_key_methods.contains(&mname) {
-                if let Some(Expr::Lit(ExprLit { lit: Lit::Str(s), .. })) = mc.args.first() {
-                    let bytes = s.value().into_bytes();
-                    let np = self.lit_path(bytes, &format!("str key argument of .{}()", mname));
-                    *mc.args.first_mut().unwrap() = np;
-                }
-            }
-        }
-        visit_mut::visit_expr_mut(self, e);
-        // N4 (continued): a byte-string literal is an array in the source and a `&'static [u8]` constant here; `.as_slice()` on
-        // it is the identity (and `<[u8]>::as_slice` is unstable)
-        if let Expr::MethodCall(mc) = e {
-            if mc.method == "as_slice" && mc.args.is_empty() {
-                if let Expr::Path(rp) = &*mc.receiver {
-                    if rp.path.segments.last().map(|sg| sg.ident.to_string().starts_with("VP_B")).unwrap_or(false) {
-                        self.log.push("N4 <byte-string constant>.as_slice() -> the constant".to_string());
-                        let r = (*mc.receiver).clone();
-                        *e = r;
-                        return;
-                    }
-                }
-            }
-        }
-        match e {
-            Expr::Match(m) => {
-                if let Some(n) = self.try_match_to_if(m) {
-                    *e = n;
-                }
-            }
-            Expr::Lit(ExprLit { lit: Lit::ByteStr(b), .. }) => {
-                let v = b.value();
-                *e = self.lit_path(v, "expression");
-            }
-            Expr::Macro(em) => {
-                let name = em.mac.path.segments.last().map(|s| s.ident.to_string()).unwrap_or_default();
-                if name == "matches" {
-                    // matches!(scrutinee, A | B | C)
-                    struct MArgs {
-                        e: Expr,
-                        p: Pat,
-                    }
-                    impl parse::Parse for MArgs {
-                        fn parse(input: parse::ParseStream) -> Result<Self> {
-                            let e: Expr = input.parse()?;
-                            input.parse::<Token![,]>()?;
-                            let p = Pat::parse_multi_with_leading_vert(input)?;
-                            Ok(MArgs { e, p })
-                        }
-                    }
-                    if let Ok(a) = em.mac.parse_body::<MArgs>() {
-                        if let Expr::Path(ep) = &a.e {
-                            if let Some(id) = ep.path.get_ident() {
-                                if let Some(c) = self.pat_to_cond(id, &a.p) {
-                                    self.log.push(format!("N1 matches!({}, ..) -> disjunction of equalities", id));
-                                    *e = parse_quote!((#c));
-                                }
-                            }
-                        }
-                    }
-                } else if name == "write" {
-                    // N6: write!(f, "{}", x) -> crate::sp::vp_write_display(f, &x)
-                    let parsed: Result<Punctuated<Expr, Token![,]>> = em.mac.parse_body_with(Punctuated::parse_terminated);
-                    if let Ok(mut args) = parsed {
-                        // macro arguments are opaque tokens for the visitor: normalise them explicitly
-                        for a in args.iter_mut() {
-                            self.visit_expr_mut(a);
-                        }
-                        // holes with a name and/or a lower-hex spec: write!(f, "0x{a:02x}{:x}", b) -- `{}` / `{name}` take a string-like
-                        // argument, `{:x}` / `{:02x}` / `{name:x}` / `{name:02x}` a `u8`; anything else is left alone (Verus rejects it)
-                        if args.len() >= 2 {
-                            if let Expr::Lit(ExprLit { lit: Lit::Str(fs), .. }) = &args[1] {
-                                let fmt = fs.value();
-                                if let Some(pieces) = parse_fmt_pieces(&fmt) {
-                                    let special = pieces.iter().any(|p| matches!(p, FmtPiece::Hole { name, spec } if name.is_some() || !spec.is_empty()));
-                                    let n_pos = pieces.iter().filter(|p| matches!(p, FmtPiece::Hole { name: None, .. })).count();
-                                    if special && n_pos == args.len() - 2 {
-                                        let f = &args[0];
-                                        let mut parts: Vec<Expr> = vec![];
-                                        let mut next = 2;
-                                        for pc in &pieces {
-                                            match pc {
-                                                FmtPiece::Lit(l) => {
-                                                    let l = LitStr::new(l, Span::call_site());
-                                                    parts.push(parse_quote!(#l));
-                                                }
-                                                FmtPiece::Hole { name, spec } => {
-                                                    let a: Expr = match name {
-                                                        Some(n) => {
-                                                            let id = format_ident!("{}", n);
-                                                            parse_quote!(#id)
-                                                        }
-                                                        None => {
-                                                            let a = args[next].clone();
-                                                            next += 1;
-                                                            a
-                                                        }
-                                                    };
-                                                    if spec.is_empty() {
-                                                        parts.push(parse_quote!(crate::sp::VpAsStr::vp_as_str(&#a)));
-                                                    } else {
-                                                        let w: usize = if spec == "02x" { 2 } else { 0 };
-                                                        parts.push(parse_quote!(crate::sp::VpAsStr::vp_as_str(&crate::sp::vp_hex_u8(#a, #w))));
-                                                    }
-                                                }
-                                            }
-                                        }
-                                        self.log.push(format!("N6 write!({}, {:?}, ..) -> vp_write_parts (named / lower-hex holes)", f.to_token_stream(), fmt));
-                                        *e = parse_quote!(crate::sp::vp_write_parts(#f, &[#(#parts),*]));
-                                        return;
-                                    }
-                                }
-                            }
-                        }
-                        // general form: write!(f, "lit{}lit{}..", a, b, ..) with only `{}` holes and string-like arguments
-                        // -> vp_write_parts(f, &[ "lit", a, "lit", b, .. ])
-                        if args.len() >= 3 {
-                            if let Expr::Lit(ExprLit { lit: Lit::Str(fs), .. }) = &args[1] {
-                                let fmt = fs.value();
-                                let pieces: Vec<&str> = fmt.split("{}").collect();
-                                if fmt != "{}" && pieces.len() == args.len() - 1 && !fmt.replace("{}", "").contains('{') {
-                                    let f = &args[0];
-                                    let mut parts: Vec<Expr> = vec![];
-                                    for (i, lit) in pieces.iter().enumerate() {
-                                        if !lit.is_empty() {
-                                            let l = LitStr::new(lit, Span::call_site());
-                                            parts.push(parse_quote!(#l));
-                                        }
-                                        if i + 2 < args.len() {
-                                            let a = &args[i + 2];
-                                            parts.push(parse_quote!(crate::sp::VpAsStr::vp_as_str(&#a)));
-                                        }
-                                    }
-                                    self.log.push(format!("N6 write!({}, {:?}, ..) -> vp_write_parts", f.to_token_stream(), fmt));
-                                    *e = parse_quote!(crate::sp::vp_write_parts(#f, &[#(#parts),*]));
-                                    return;
-                                }
-                            }
-                        }
-                        if args.len() == 3 {
-                            if let Expr::Lit(ExprLit { lit: Lit::Str(fs), .. }) = &args[1] {
-                                if fs.value() == "{}" {
-                                    let f = &args[0];
-                                    let x = &args[2];
-                                    self.log.push(format!("N6 write!({}, \"{{}}\", ..) -> vp_write_display", f.to_token_stream()));
-                                    *e = parse_quote!(crate::sp::vp_write_display(#f, &#x));
-                                }
-                            }
-                        }
-                    }
-                } else if name == "format" {
-                    *e = self.rewrite_format(&em.mac);
-                } else if name == "unreachable" {
-                    // keep: Verus understands unreachable!() as assert(false)
-                }
-            }
-            Expr::MethodCall(mc) => {
-                let mname = mc.method.to_string();
-                // N2 unsizing to &mut dyn BufMut
-                if mname == "encode" && mc.args.len() == 1 {
-                    let arg = mc.args.first().unwrap().clone();
-                    let dynp = self.dyn_params.last().cloned().unwrap_or_default();
-                    let bmp = self.bufmut_params.last().cloned().unwrap_or_default();
-                    match &arg {
-                        Expr::Reference(r) if r.mutability.is_some() => {
-                            let inner = &r.expr;
-                            *mc.args.first_mut().unwrap() = parse_quote!(crate::sp::VpDyn::vp_dyn(&mut #inner));
-                            self.log.push(format!("N2 .encode(&mut {}) -> vp_dyn", inner.to_token_stream()));
-                        }
-                        Expr::Path(p) => {
-                            if let Some(id) = p.path.get_ident() {
-                                let n = id.to_string();
-                                if bmp.contains(&n) && !dynp.contains(&n) {
-                                    *mc.args.first_mut().unwrap() = parse_quote!(crate::sp::VpDyn::vp_dyn(#id));
-                                    self.log.push(format!("N2 .encode({}) -> vp_dyn", n));
-                                }
-                            }
-                        }
-                        _ => {}
-                    }
-                }
-                // N13: <&str parameter>.len() -> shim with a byte-length contract (vstd's own `str::len` entry carries no
-                // usable postcondition in this version)
-                if mname == "len" && mc.args.is_empty() {
-                    if let Expr::Path(p) = &*mc.receiver {
-                        if let Some(id) = p.path.get_ident() {
-                            if self.str_params.last().map(|s| s.contains(&id.to_string())).unwrap_or(false) {
-                                self.log.push(format!("N13 {}.len() (a &str parameter) -> crate::sp::vp_str_len({})", id, id));
-                                *e = parse_quote!(crate::sp::vp_str_len(#id));
-                                return;
-                            }
-                        }
-                    }
-                }
-                // N13: x.hash(state) -> shim (the Hasher trait cannot carry a ghost trace in this Verus)
-                if mname == "hash" && mc.args.len() == 1 {
-                    let recv = (*mc.receiver).clone();
-                    let st = mc.args.first().unwrap().clone();
-                    self.log.push(format!("N13 {}.hash({}) -> crate::sp::vp_hash(&.., ..)", recv.to_token_stream(), st.to_token_stream()));
-                    *e = parse_quote!(crate::sp::vp_hash(&#recv, #st));
-                    return;
-                }
-                // N13: <&mut [u8] parameter>.as_ref() -> shim
-                if mname == "as_ref" && mc.args.is_empty() {
-                    if let Expr::Path(p) = &*mc.receiver {
-                        if let Some(id) = p.path.get_ident() {
-                            if self.mutslice_params.last().map(|s| s.contains(&id.to_string())).unwrap_or(false) {
-                                self.log.push(format!("N13 {}.as_ref() (a &mut [u8] parameter) -> crate::sp::vp_mut_slice_as_ref({})", id, id));
-                                *e = parse_quote!(crate::sp::vp_mut_slice_as_ref(#id));
-                                return;
-                            }
-                        }
-                    }
-                }
-                // N13: String::from_utf8_lossy(x).to_string() -> shim (Cow<str> cannot be specified)
-                if mname == "to_string" && mc.args.is_empty() {
-                    if let Expr::Call(c) = &*mc.receiver {
-                        if let Expr::Path(p) = &*c.func {
-                            if p.path.segments.last().map(|s| s.ident == "from_utf8_lossy").unwrap_or(false) && c.args.len() == 1 {
-                                let a = c.args.first().unwrap().clone();
-                                self.log.push("N13 String::from_utf8_lossy(..).to_string() -> crate::sp::vp_lossy_string(..)".to_string());
-                                *e = parse_quote!(crate::sp::vp_lossy_string(#a));
-                                return;
-                            }
-                        }
-                    }
-                }
-                // N10 constructor as function value
-                if (mname == "map" || mname == "map_err" || mname == "and_then") && mc.args.len() == 1 {
-                    if let Expr::Path(p) = mc.args.first().unwrap() {
-                        if p.path.segments.len() >= 2 {
-                            let last = p.path.segments.last().unwrap().ident.to_string();
-                            if last.chars().next().map(|c| c.is_ascii_uppercase()).unwrap_or(false) {
-                                let path = p.path.clone();
-                                self.log.push(format!("N10 constructor as fn value {} -> closure", path.to_token_stream()));
-                                *mc.args.first_mut().unwrap() = parse_quote!(|vp_x| #path(vp_x));
-                            }
-                        }
-                    }
-                }
-            }
-            Expr::Closure(c) => {
-                for inp in c.inputs.iter_mut() {
-                    if let Pat::Wild(_) = inp {
-                        self.closure_ctr += 1;
-                        let id = format_ident!("_vp_u{}", self.closure_ctr);
-                        *inp = parse_quote!(#id);
-                        self.log.push("N11 closure parameter `_` renamed".to_string());
-                    }
-                }
-            }
-            Expr::ForLoop(fl) => {
-                // N5
-                if let Expr::Reference(r) = &*fl.expr {
-                    if r.mutability.is_none() {
-                        let inner = &r.expr;
-                        self.log.push(format!("N5 for .. in &{} -> .iter()", inner.to_token_stream()));
-                        let ne: Expr = parse_quote!(#inner.iter());
-                        *fl.expr = ne;
-                    }
-                }
-            }
-            _ => {}
+        self.visit_expr_inner(e);
+        if errpos {
+            self.err_ctx -= 1;
         }
     }
 
@@ -1180,6 +1198,46 @@ impl<'a> Rw<'a> {
                     }
                 }
             }
+        }
+        // positional holes: format!("lit{}lit{}", a, b) with only `{}` holes -> the same chain
+        if let Ok(args) = mac.parse_body_with(Punctuated::<Expr, Token![,]>::parse_terminated) {
+            if args.len() >= 2 {
+                if let Some(Expr::Lit(ExprLit { lit: Lit::Str(fs), .. })) = args.first() {
+                    let f = fs.value();
+                    let lits: Vec<&str> = f.split("{}").collect();
+                    if lits.len() == args.len() && !f.replace("{}", "").contains('{') && !f.replace("{}", "").contains('}') {
+                        let mut pieces: Vec<Expr> = vec![];
+                        for (i, l) in lits.iter().enumerate() {
+                            if !l.is_empty() {
+                                let ls = LitStr::new(l, Span::call_site());
+                                pieces.push(parse_quote!(#ls));
+                            }
+                            if i + 1 < args.len() {
+                                let a = &args[i + 1];
+                                pieces.push(parse_quote!(&#a));
+                            }
+                        }
+                        if pieces.len() == 1 {
+                            pieces.insert(0, parse_quote!(""));
+                        }
+                        let mut acc: Expr = pieces[0].clone();
+                        let n = pieces.len();
+                        for (i, pc) in pieces.iter().enumerate().skip(1) {
+                            acc = if i == n - 1 { parse_quote!(crate::sp::vp_str_cat(#acc, #pc)) } else { parse_quote!(&crate::sp::vp_str_cat(#acc, #pc)) };
+                        }
+                        self.log.push(format!("N6 format!({}) -> vp_str_cat chain (positional holes)", toks));
+                        return acc;
+                    }
+                }
+            }
+        }
+        if self.err_ctx == 0 {
+            // not an error text: an arbitrary string would over-approximate a VALUE, and a proof that fails on the
+            // over-approximation says nothing about the code.
+            // Verus would accept the macro and know nothing about its result, which is the same over-approximation: the call
+            // below names a function that does not exist, so the body is rejected and dropped by the ladder.
+            self.log.push(format!("N6 format!({}) outside an error position: not modelled (function UNDECIDED)", toks));
+            return parse_quote!(crate::sp::vp_format_not_modelled_in_value_position());
         }
         self.log.push(format!("N6 format!({}) -> opaque error text", toks));
         parse_quote!(crate::sp::vp_opaque_string())
@@ -2378,6 +2436,7 @@ fn main() {
             file: path.to_string(),
             const_values: &const_values,
             n16: 0,
+            err_ctx: 0,
             local_str_newtypes: BTreeSet::new(),
         };
         rw.visit_file_mut(&mut file);
